@@ -544,6 +544,30 @@ func (w *c20World) buildLocker() {
 	w.msg("locker 4 (asset 1)", lockertypes.NewMsgCreateLockerRequest(u1, sdk.NewInt(4000000), 1, 2))
 	w.msg("locker 5", lockertypes.NewMsgCreateLockerRequest(w.u[3].String(), sdk.NewInt(1000000), 1, 2))
 	w.msg("close locker 5", lockertypes.NewMsgCloseLockerRequest(w.u[3].String(), 2, 1, 5))
+	// a locker opened while the saving rate of its asset is ZERO (it accrues from the lookup record's anchor, not from its own); the
+	// rate is switched on a block later (v2Bids): the savings of this locker depend on the lookup record's BlockTime surviving
+	w.step("collector lookup 2/2 (zero rate)", func() error {
+		if err := w.app.CollectorKeeper.WasmSetCollectorLookupTable(w.ctx, &bindings.MsgSetCollectorLookupTable{AppID: 2, CollectorAssetID: 2,
+			SecondaryAssetID: hbr, SurplusThreshold: sdk.NewInt(10000000000), DebtThreshold: sdk.NewInt(5000000), LockerSavingRate: c20Dec("0.0"),
+			LotSize: sdk.NewInt(2000000), BidFactor: c20Dec("0.01"), DebtLotSize: sdk.NewInt(2000000)}); err != nil {
+			return err
+		}
+		if _, err := w.app.LockerKeeper.AddWhiteListedAsset(w.ctx, &lockertypes.MsgAddWhiteListedAssetRequest{From: u1, AppId: 2, AssetId: 2}); err != nil {
+			return err
+		}
+		if err := w.app.Rewardskeeper.WhitelistAssetForInternalRewards(w.ctx, 2, 2); err != nil {
+			return err
+		}
+		if err := w.app.CollectorKeeper.SetNetFeeCollectedData(w.ctx, 2, 2, sdk.NewInt(50000000)); err != nil {
+			return err
+		}
+		c := sdk.NewCoins(coin("uasset2", 50000000))
+		if err := w.app.BankKeeper.MintCoins(w.ctx, auctionsV2types.ModuleName, c); err != nil {
+			return err
+		}
+		return w.app.BankKeeper.SendCoinsFromModuleToModule(w.ctx, auctionsV2types.ModuleName, collectortypes.ModuleName, c)
+	})
+	w.msg("locker 6 (zero rate)", lockertypes.NewMsgCreateLockerRequest(w.u[3].String(), sdk.NewInt(2000000000), 2, 2))
 	w.msg("ext rewards locker", rewardstypes.NewMsgActivateExternalRewardsLockers(2, 3, coin("ucmdx", 3000000), 10, 1, w.u[0]))
 }
 
@@ -706,6 +730,11 @@ func (w *c20World) buildOracle() {
 // second-generation bids (block 4)
 func (w *c20World) v2Bids() {
 	coin := func(d string, n int64) sdk.Coin { return sdk.NewCoin(d, sdk.NewInt(n)) }
+	w.step("collector lookup 2/2 rate on", func() error {
+		return w.app.CollectorKeeper.WasmUpdateCollectorLookupTable(w.ctx, &bindings.MsgUpdateCollectorLookupTable{AppID: 2, AssetID: 2,
+			SurplusThreshold: sdk.NewInt(10000000000), DebtThreshold: sdk.NewInt(5000000), LSR: c20Dec("0.2"), LotSize: sdk.NewInt(2000000),
+			BidFactor: c20Dec("0.01"), DebtLotSize: sdk.NewInt(2000000)})
+	})
 	w.msg("V2 market bid 2", auctionsV2types.NewMsgPlaceMarketBid(w.u[2].String(), 2, coin("uasset3", 1120000)))
 	// an externally initiated liquidation and a full bid on it (fee statistics of external initiators)
 	w.msg("V2 external liquidation", liqV2types.NewMsgLiquidateExternalKeeperRequest(w.u[3], 2, w.u[3].String(), coin("uasset2", 1000000),
